@@ -269,7 +269,7 @@ def k3_shapes(tier):
         for t in range(1, S + 1):
             for order in ('qtq', 'tqq'):
                 out.append({'S': S, 'a': a, 't': t, 'order': order})
-            if tier == 'thorough' or (a + t) % 2 == 0:
+            if (a + t) % 2 == 0:          # sized: half of the (a, t) grid in both tiers
                 out.append({'S': S, 'a': a, 't': t, 'order': 'xq'})
     if tier == 'thorough':
         for a, t in ((17, 9), (20, 16), (5, 20), (18, 17)):
